@@ -114,20 +114,17 @@ func rawQueryDel(rawQuery string, del func(key string) bool) string {
 
 // ReqQueryRename renames query key from old name to new name.
 func ReqQueryRename(req *bfe_basic.Request, oldName string, newName string) {
-	var values []string
-	var ok bool
-
 	// parse the query
 	queries := queryParse(req)
 
 	// renanme query key from old name to new name
-	if values, ok = queries[oldName]; !ok {
-		// not find
-		return
+	if values, ok := queries[oldName]; ok {
+		queries.Del(oldName)
+		queries[newName] = values
 	}
 
-	queries.Del(oldName)
-	queries[newName] = values
+	// the raw query is renamed even if the parsed query does not hold the key:
+	// url.ParseQuery drops pairs it cannot parse (';' in the pair, invalid escape)
 
 	// rename keys in raw query, whatever their encoding; values are kept byte for byte
 	pairs := strings.Split(req.HttpRequest.URL.RawQuery, "&")
